@@ -46,6 +46,7 @@ import (
 	"verif/internal/ref"
 
 	"github.com/mgtv-tech/redis-GunYu/config"
+	"github.com/mgtv-tech/redis-GunYu/pkg/redis/checkpoint"
 )
 
 var modes = []config.ReplayMode{config.ReplayModeSync, config.ReplayModePipeline, config.ReplayModeParallel}
@@ -106,6 +107,57 @@ func probeCase(i int, r *rand.Rand) caseCfg {
 	return c
 }
 
+// slotTagFirstUse: the table behind checkpoint.BisyncSlotTag (the hash tag that co-locates a
+// unit's marker / latest / commit / index keys with the unit's slot) is built on first use, and the
+// first users of a process are concurrent (several outputs, replay workers, committer beside the unit
+// builder).  This runs before anything else in the process has asked for a tag: 16 goroutines released
+// together ask for different slots; every answer must be a non-empty tag T with HASH_SLOT("{T}") = slot
+// by the reference implementation.  Then all 16384 slots once, sequentially.
+func slotTagFirstUse(run *harness.Run) {
+	const g = 16
+	r := run.Rand("slot-tag-first-use")
+	slots := make([]uint16, g)
+	for i := range slots {
+		slots[i] = uint16(r.Intn(16384))
+	}
+	slots[0], slots[1] = 0, 16383
+	tags := make([]string, g)
+	start := make(chan struct{})
+	var wg sync.WaitGroup
+	for i := 0; i < g; i++ {
+		wg.Add(1)
+		go func(i int) {
+			defer wg.Done()
+			<-start
+			tags[i] = checkpoint.BisyncSlotTag(slots[i])
+		}(i)
+	}
+	close(start)
+	wg.Wait()
+	run.Eval(1)
+	check := func(slot uint16, tag, how string) bool {
+		if tag != "" && ref.HashSlot([]byte("{"+tag+"}")) == int(slot) && ref.HashSlot([]byte("x:{"+tag+"}:y")) == int(slot) {
+			return true
+		}
+		run.Violation("control-key-tag-not-in-unit-slot|"+how, "slot-tag-first-use",
+			fmt.Sprintf("BisyncSlotTag(%d) = %q (%s): keys tagged {%s} hash to slot %d, the unit's slot is %d", slot, tag, how, tag, ref.HashSlot([]byte("x:{"+tag+"}:y")), slot),
+			map[string]any{"slot": slot, "tag": tag, "how": how})
+		return false
+	}
+	ok := true
+	for i := range slots {
+		ok = check(slots[i], tags[i], "concurrent-first-use") && ok
+	}
+	if ok {
+		for s := 0; s < 16384; s++ {
+			if !check(uint16(s), checkpoint.BisyncSlotTag(uint16(s)), "sequential") {
+				break
+			}
+		}
+	}
+	run.Count("slot_tags_checked_against_reference", 16384+g)
+}
+
 const blackPrefix = "blk:"
 
 func main() {
@@ -128,6 +180,8 @@ func main() {
 	run.Assume("the topology is stable: any MOVED / ASK / TRYAGAIN / CROSSSLOT reply served to the tool is caused by where / how the tool sent a block")
 	run.Assume("key-less instances (EVAL … 0) and SORT with external BY/GET patterns are outside the quantifier and are not generated; generated requests pass the double's arity check (a master propagates nothing else)")
 	run.Assume("a refused unit's COMMAND GETKEYS introspection requests carry its arguments; they are not counted as 'a request belonging to the unit'")
+
+	slotTagFirstUse(run)
 
 	d := newDriver()
 	defer d.Close()
